@@ -94,6 +94,9 @@ func c18Dirs(tier string) ([]image, string) {
 			}
 		}
 	}
+	// directories without any data file
+	add(image{map[string][]byte{}, "hand-listed: empty directory"})
+	add(image{map[string][]byte{"README": []byte("hello"), "data.txt": []byte("x")}, "hand-listed: only files that are not data-*.moss"})
 	// hand-listed directories built from a complete single-file store
 	var good []byte
 	var goodName string
@@ -160,7 +163,7 @@ func diffFingerprint(a, b map[string]fileID) string {
 	return strings.Join(out, ", ")
 }
 
-var c18Alphabet = []string{"G", "S", "B", "N", "CC", "CS"}
+var c18Alphabet = []string{"G", "S", "B", "N", "SP", "CC", "CS"}
 
 func c18Sequences(maxLen int) [][]string {
 	seqs := [][]string{{}}
@@ -220,6 +223,19 @@ func c18One(img image, cfg Config, seq []string, res *c18Res) *Violation {
 			case "B":
 				if !w.closedColl && w.pending == nil {
 					w.Step("B0")
+				}
+			case "SP": // Store.Persist of the read-only collection's snapshot, called directly (as the repository's own read-only test does)
+				if !w.closedColl && !w.closedStore {
+					t := w.s.Spawn("persist", func() {
+						if ss, err := w.coll.Snapshot(); err == nil {
+							if llss, err := w.store.Persist(ss, moss.StorePersistOptions{CompactionConcern: moss.CompactionConcern(cfg.Concern)}); err == nil && llss != nil {
+								llss.Close()
+							}
+							ss.Close()
+						}
+					})
+					w.mains[t.ID] = true
+					w.runAll()
 				}
 			case "N":
 				if !w.closedColl && moss.VerifPingQueue(w.coll) < 9 {
